@@ -38,7 +38,7 @@ inline void range_of(const std::string& s, int& lo, int& hi) {
 inline std::vector<int> shapes_named(const std::string& list, int arity) {
     std::vector<int> out;
     if (list == "all") {
-        for (int i = 0; i < hx::NUSED; ++i)
+        for (int i = 0; i < hx::NUSED && i < hx::SO_BASE; ++i)
             if (hx::shape_arity(i) == arity)
                 out.push_back(i);
         return out;
